@@ -17,12 +17,12 @@ import (
 type RX struct {
 	Op   string // lit class any anys cap grp star plus quest rep alt cat bol eol wb nwb fold perl backref
 	Kids []*RX
-	Lit  string  // lit: literal text; perl: one of \w \d \s \W \D \S
-	Set  []rune  // class: pairs lo,hi
-	Neg  bool    // class negated
-	Min  int     // rep
-	Max  int     // rep (-1 = unbounded)
-	N    int     // backref group number
+	Lit  string // lit: literal text; perl: one of \w \d \s \W \D \S
+	Set  []rune // class: pairs lo,hi
+	Neg  bool   // class negated
+	Min  int    // rep
+	Max  int    // rep (-1 = unbounded)
+	N    int    // backref group number
 }
 
 // Alphabets.
